@@ -897,14 +897,16 @@ def check_C18(world, hist, pred):
                 if e["kind"] == "cleanup":
                     continue
                 ms = [m for m in hist["markers"] if m["m"] in text]
-                from_logging = (ms and all(m["stream"] == "log" for m in ms)) or (not ms and "filler " in text)
+                from_logging = (ms and all(m["stream"] == "log" for m in ms)) or \
+                    (not ms and ("filler " in text or re.search(r"SKIP (Scenario|Feature|Rule|ScenarioOutline)", text)))
+                # ("SKIP <element>: reason" is behave's own log record for skip(reason=...))
                 if from_logging and not cap["log"]:
                     continue    # logging with log capture off passes straight through its handlers
                 if from_logging and app_stream_handler_active:
                     continue    # the application's own stream handler was not asked to be cleared
                 if from_logging and cap["log"]:
                     stream = "log->" + stream
-                out.append(V("C18", "leak-to-real-stream", "%s:during-%s" % (stream, e["kind"] if e["kind"] == "step" else e["name"]),
+                out.append(V("C18", "leak-to-real-stream", "%s:during-%s" % (stream, e["kind"] if e["kind"] == "step" else (e.get("name") or e["kind"])),
                              seq=seq, text=text[:80]))
                 break
     for e in events:
